@@ -17,6 +17,7 @@ class WApp:
         self.name = name
         self.api = api
         self.ev = []
+        self.order = []           # every observation in firing order (kinds; '+' marks chained gets)
         self.sent = []
         self.calls = []
         self.close_results = []       # one entry per fired close() Deferred / wormhole_closed
@@ -53,6 +54,22 @@ class WApp:
     # ---- recording
     def _ev(self, kind, value):
         self.ev.append((self.world.step, kind, value))
+        self.order.append(kind)
+
+    def chain_gets_from_key_callback(self, which=("verifier", "versions", "code")):
+        """an application that asks for the later events from inside the callback of an earlier one (the
+        results are only recorded in self.order, with a '+' suffix)"""
+        w = self.w
+
+        def note(kind):
+            return lambda v: (self.order.append(kind + "+"), v)[1]
+
+        def on_key(k):
+            self.order.append("key+")
+            for what in which:
+                getattr(w, "get_" + what)().addCallbacks(note(what), lambda f: None)
+            return k
+        w.get_unverified_key().addCallbacks(on_key, lambda f: None)
 
     def _err(self, kind, f):
         self.ev.append((self.world.step, kind + "-err", f.type.__name__))
